@@ -43,8 +43,9 @@ func traceKey(tr model.Trace) string {
 	return fmt.Sprintf("%v|%c|%s", tr.Vals, tr.End, tr.Err)
 }
 
-func admissible(row *mrow, scripts [][]rt.Ev) map[string]bool {
+func admissible(row *mrow, scripts [][]rt.Ev) (map[string]bool, []model.Trace) {
 	out := map[string]bool{}
+	var all []model.Trace
 	interleavings(scripts, func(as []arrival) {
 		m := row.Model(len(scripts))
 		for _, a := range as {
@@ -55,15 +56,35 @@ func admissible(row *mrow, scripts [][]rt.Ev) map[string]bool {
 		for _, v := range tr.Vals {
 			norm.Vals = append(norm.Vals, cat.Norm(v))
 		}
+		if !out[traceKey(norm)] {
+			all = append(all, norm)
+		}
 		out[traceKey(norm)] = true
 	})
-	return out
+	return out, all
+}
+
+// c05OneMissing: got equals some admissible output with exactly one emission removed.
+func c05OneMissing(got model.Trace, adm []model.Trace) bool {
+	for _, a := range adm {
+		if a.End != got.End || a.Err != got.Err || len(a.Vals) != len(got.Vals)+1 {
+			continue
+		}
+		for i := range a.Vals {
+			less := model.Trace{End: a.End, Err: a.Err}
+			less.Vals = append(append([]any{}, a.Vals[:i]...), a.Vals[i+1:]...)
+			if traceKey(less) == traceKey(got) {
+				return true
+			}
+		}
+	}
+	return false
 }
 
 func c05RunConc(t rt.TB, c c05Conc) {
 	row := mrowByName(c.Op)
 	k := len(c.Scripts)
-	adm := admissible(row, c.Scripts)
+	adm, admTraces := admissible(row, c.Scripts)
 	for rep := 0; rep < c.Reps; rep++ {
 		rt.NewSink()
 		srcs := make([]*rt.ManualSrc, k)
@@ -113,6 +134,12 @@ func c05RunConc(t rt.TB, c c05Conc) {
 					class = "one-emission-between-final-flush-and-completion"
 					break
 				}
+			}
+			// One emission missing, the rest being an admissible output with the same
+			// ending: a value was taken out of the operator's state under its lock and
+			// the terminal notification overtook it before it was emitted.
+			if class == "output-matches-no-arrival-order" && c05OneMissing(got, admTraces) {
+				class = "one-emission-overtaken-by-the-terminal"
 			}
 			rt.Report(t, rt.Failure{Property: "C05", Check: "concurrent-arrival", Op: c.Op, Class: class, Msg: fmt.Sprintf("%s with sources %v driven concurrently (repetition %d): output %s is not the definition's output for any interleaving; admissible: %v", c.Op, wordsString(c.Scripts), rep, got, keys), Case: c})
 			return
